@@ -707,6 +707,16 @@ fn check(case: &Case) -> Verdict {
                 Ok(Ok(lz)) => {
                     if let Some((field, msg)) = reference.first_diff(&lz.normalised(Target::Bcf, hm)) {
                         fails.push(sig_for(cls, &format!("lazy-mismatch-{field}"), &format!("c10.lazy-vs-eager.{field}")), format!("record {i}: lazy bcf::Record accessors differ from the eager read: {msg}"));
+                    } else if let Some(e) = &eager {
+                        // genotypes exactly, without the normal form: before VCF 4.4 the phasing of
+                        // the first allele is not stored but inferred, and the two decoders must infer
+                        // the same thing from the same bytes
+                        let gts = |r: &VarRecord| -> Vec<Vec<Allele>> { r.samples.iter().flatten().filter_map(|v| if let Some(SampleValue::Genotype(g)) = v { Some(g.clone()) } else { None }).collect() };
+                        let (a, b) = (gts(e), gts(&lz));
+                        if a != b {
+                            let k = a.iter().zip(b.iter()).position(|(x, y)| x != y).unwrap_or(a.len().min(b.len()));
+                            fails.push(sig_for(cls, "lazy-mismatch-genotype-exact", "c10.lazy-vs-eager.genotype-exact"), format!("record {i}: genotype #{k} of the record: eager decoder {:?}, lazy decoder {:?} (fileformat 4.{})", a.get(k), b.get(k), hm.minor));
+                        }
                     }
                 }
                 Ok(Err(e)) => fails.push(sig_for(cls, "lazy-accessor-error", "c10.lazy.accessor-error"), format!("record {i}: a lazy accessor fails: {e}; record: {}", trunc(&canonical_text(want, hm), 300))),
